@@ -210,6 +210,9 @@ def attack_child(a, d: str):
     """Runs in its own process (an attack may kill it)."""
     sys.stdout = open(os.devnull, "w")
     sys.stderr = open(os.devnull, "w")
+    _null = os.open(os.devnull, os.O_WRONLY)   # Lua's own print() writes to the C-level stdout
+    os.dup2(_null, 1)
+    os.dup2(_null, 2)
     d = Path(d)
     (d / "outside").mkdir(parents=True)
     (d / "victim.txt").write_text("victim data")
@@ -218,6 +221,11 @@ def attack_child(a, d: str):
     common.use_repo()
     ctx = luafix.make_ctx(d / "ctx", {"c06atk": c06_corpus.module_source(a), "c06victim": "return {}",
                                       "c06warm": "return { main = function() return 'warm' end }"})
+    # one page of every kind the store can hold (attacks look at what helpers return for each)
+    ctx.add_page("Template:C06tgt", 10, body="target body")
+    ctx.add_page("Template:C06rdr", 10, redirect_to="Template:C06tgt")
+    ctx.add_page("Template:C06dang", 10, redirect_to="Template:C06gone")
+    ctx.db_conn.commit()
     if ctx.expand("{{#invoke:c06warm|main}}") != "warm":  # the first use of Lua adds the library's own guard page
         os._exit(3)
     ctx.start_page("Tt")
